@@ -313,6 +313,9 @@ class Job:
         # This is true if we fetched the result from the cache.
         self.was_cached: bool = False
 
+        # This is true while the job holds resource limits that still need to be released.
+        self.holds_limits: bool = False
+
         # Hash of the CallNode associated with running this job. This hash requires knowledge
         # of the Job's result, hence is available after either computing or retrieving the result.
         self.call_hash: Optional[str] = None
@@ -1586,6 +1589,15 @@ class Scheduler:
         for limit_name, count in job_limits.items():
             self.limits_used[limit_name] -= count
 
+    def _release_job_resources(self, job: Job) -> None:
+        """
+        Releases the resource limits held by a job, exactly once.
+        """
+        if job.holds_limits:
+            job.holds_limits = False
+            self._release_resources(job.get_limits())
+            self._check_jobs_pending_limits()
+
     def _add_job_pending_limits(self, job: Job, eval_args: tuple[tuple, dict]) -> None:
         """
         Adds a job to the queue of jobs waiting to run once resources are available.
@@ -1763,6 +1775,7 @@ class Scheduler:
                 self._add_job_pending_limits(job, eval_args)
                 return
             self._consume_resources(job_limits)
+            job.holds_limits = True
 
         # Record that the job is actually starting.
         if job.recording_provenance():
@@ -1841,9 +1854,7 @@ class Scheduler:
         assert self.thread_id == threading.get_ident()
 
         # Cached jobs won't have used any resources.
-        if not job.was_cached:
-            self._release_resources(job.get_limits())
-            self._check_jobs_pending_limits()
+        self._release_job_resources(job)
 
         assert job.task
         assert job.eval_hash
@@ -2069,10 +2080,9 @@ class Scheduler:
                 )
             )
 
-            # Cached jobs won't have used any resources.
-            if not job.was_cached:
-                self._release_resources(job.get_limits())
-                self._check_jobs_pending_limits()
+            # Cached jobs won't have used any resources. A job whose result failed to evaluate
+            # already released its resources when it was done.
+            self._release_job_resources(job)
 
             if self.use_task_traceback:
                 self._set_task_traceback(job, error, error_traceback=error_traceback)
